@@ -17,7 +17,11 @@ def _maxpad(cap, mx, bounded):
 
 # --------------------------------------------------------------------------- C05
 def c05(rng, qk):
-    s, cap, mx, bounded = _base(rng, qk, grace=rng.choice([1, 1, 2, 3]), soft=rng.choice([1, 2, 4]), hard=rng.choice([4, 8]),
+    # grace in clock units (1 unit = 1 us; every clock read advances one unit): large enough that an ordinary call is
+    # not "late" just because other threads read the clock, small enough that ticks cross it
+    grace = rng.choice([4, 8, 16])
+    hard = rng.choice([4, 8])
+    s, cap, mx, bounded = _base(rng, qk, grace=grace, soft=rng.choice([x for x in (1, 2, 4, 8) if x <= hard]), hard=hard,
                                 ring=rng.choice([1, 2, 4]))
     s.sink("S0")
     if rng.random() < 0.4:
@@ -26,58 +30,69 @@ def c05(rng, qk):
     s.logger("L1", [s.sinks[-1]], lvl=0)
     for t in range(rng.randint(2, 4)):
         s.start(f"t{t}")
-    for _ in range(rng.randint(15, 50)):
+    stalled = None
+    for _ in range(rng.randint(20, 60)):
         r = rng.random()
-        if r < 0.45:
+        if stalled and rng.random() < 0.6:
+            s.op(f"T {stalled} go")       # a stalled call usually continues soon (within the grace period)
+            stalled = None
+        elif r < 0.42:
             t = rng.choice(sorted(s.alive))
-            # sometimes the thread stalls between reading the clock and enqueuing
-            s.log(t, rng.choice(s.loggers), pad=min(qsys.pads(rng, cap, bounded), _maxpad(cap, mx, bounded)), yts=1 if rng.random() < 0.25 else 0)
-        elif r < 0.58:
+            y = 1 if (stalled is None and rng.random() < 0.15) else 0
+            big = rng.random() < 0.3
+            pad = min(_maxpad(cap, mx, bounded), (cap // 2 + rng.randint(-8, 8)) if big else rng.randint(0, 24))
+            s.log(t, rng.choice(s.loggers), pad=max(0, pad), yts=y)
+            if y:
+                stalled = t
+        elif r < 0.50:
             s.op(f"T {rng.choice(sorted(s.alive))} go")
-        elif r < 0.68:
-            s.op(f"tick {rng.randint(1, 4)}")
-        elif r < 0.85:
-            s.op("B go")
+        elif r < 0.62:
+            s.op(f"tick {rng.choice([1, 2, grace // 2, grace, grace + 1, 2 * grace])}")
+        elif r < 0.86:
+            s.op("B go")                  # one backend segment: between two queue reads, before/after processing one event
         else:
-            s.backend_some(fine_prob=0.7)
-    s.op("tick 10")
+            s.backend_some(fine_prob=0.8)
+    s.op(f"tick {2 * grace + 4}")
     s.finish(final=True)
     return s.text(), s.grace
 
 
 # --------------------------------------------------------------------------- C06
 def c06(rng, qk):
-    s, cap, mx, bounded = _base(rng, qk, grace=rng.choice([0, 0, 1, 2]), soft=rng.choice([1, 2, 4]), hard=rng.choice([4, 8]),
+    grace = rng.choice([0, 0, 4, 8, 16])
+    s, cap, mx, bounded = _base(rng, qk, grace=grace, soft=rng.choice([1, 2, 4]), hard=rng.choice([4, 8]),
                                 ring=rng.choice([1, 2]), flushint=rng.choice([0, 0, 200]))
     ns = rng.randint(1, 3)
     for i in range(ns):
         s.sink(f"S{i}")
-    s.logger("L0", [f"S{i}" for i in range(rng.randint(1, ns))], lvl=0)
-    s.logger("L1", [f"S{ns - 1}"], lvl=0)
+    # every sharing pattern: each logger gets a random ordered non-empty subset of the sinks
+    for n in ("L0", "L1", "L2")[:rng.randint(2, 3)]:
+        sub = rng.sample(s.sinks, rng.randint(1, ns))
+        s.logger(n, sub, lvl=0)
     for t in range(rng.randint(1, 3)):
         s.start(f"t{t}")
     for _ in range(rng.randint(12, 40)):
         r = rng.random()
-        if r < 0.42 and s.alive:
+        if r < 0.40 and s.alive:
             s.log(rng.choice(sorted(s.alive)), rng.choice(s.loggers), pad=min(qsys.pads(rng, cap, bounded), _maxpad(cap, mx, bounded)))
-        elif r < 0.56 and s.alive:
+        elif r < 0.54 and s.alive:
             s.op(f"T {rng.choice(sorted(s.alive))} flush {rng.choice(s.loggers)}")
-        elif r < 0.62 and len(s.threads) < 5:
+        elif r < 0.60 and len(s.threads) < 5:
             # a thread logging/flushing for the first time: not yet in the backend's context cache
             t = f"t{len(s.threads)}"
             s.start(t)
             if rng.random() < 0.5:
                 s.log(t, "L0", pad=4)
             s.op(f"T {t} flush L0")
-        elif r < 0.72 and s.alive:
+        elif r < 0.70 and s.alive:
             s.op(f"T {rng.choice(sorted(s.alive))} go")
-        elif r < 0.78:
-            s.op(f"tick {rng.randint(1, 3)}")
-        elif r < 0.88:
+        elif r < 0.78 and grace:
+            s.op(f"tick {rng.choice([1, 2, grace // 2, grace, grace + 1])}")
+        elif r < 0.90:
             s.op("B go")
         else:
             s.backend_some(fine_prob=0.6)
-    s.op("tick 10")
+    s.op(f"tick {2 * grace + 4}")
     s.finish(final=True)
     return s.text(), s.grace
 
@@ -99,9 +114,12 @@ def c08(rng, qk):
                 pad = (cap if bounded else mx) + rng.randint(0, 40)         # can never fit
             else:
                 pad = min(qsys.pads(rng, cap, bounded), _maxpad(cap, mx, bounded))
-            s.log(t, "L0", pad=pad)
+            # C-string arguments go through the per-thread size cache; the others do not
+            s.log(t, "L0", pad=max(0, pad - (12 if rng.random() < 0.5 else 0)), kind=rng.choice(["direct", "cstr", "cstr"]))
         elif r < 0.66 and s.alive:
-            s.op(f"T {rng.choice(sorted(s.alive))} flush L0")                # control requests are never discarded
+            # control requests are never discarded (they retry) and never counted as drops
+            t = rng.choice(sorted(s.alive))
+            s.op(rng.choice([f"T {t} flush L0", f"T {t} initbt L0 cap=2", f"T {t} flushbt L0"]))
         elif r < 0.72 and len(s.alive) > 1:
             s.join(rng.choice(sorted(s.alive)))
         elif r < 0.76 and len(s.threads) < 5:
@@ -165,7 +183,7 @@ def c10(rng, qk):
     s.logger("L1", [f"S{ns - 1}"], lvl=0)
     for t in range(rng.randint(1, 3)):
         s.start(f"t{t}")
-    kinds = ["direct"] * 6 + ["badfmt", "bombstd", "bombint", "bombok", "btnoinit"]
+    kinds = ["direct"] * 5 + ["named", "named", "cstr", "badfmt", "bombstd", "bombint", "bombok", "btnoinit", "namedbomb"]
     for _ in range(rng.randint(12, 36)):
         r = rng.random()
         if r < 0.6:
@@ -196,8 +214,11 @@ def c10(rng, qk):
 def c16(rng, qk):
     s, cap, mx, bounded = _base(rng, qk, grace=0, soft=rng.choice([1, 2, 4]), hard=8, ring=rng.choice([1, 2]))
     for i in range(2):
-        s.sink(f"S{i}", lvl=rng.choice([0, 0, 3, 4, 7]))
-    s.logger("L0", ["S0", "S1"], lvl=rng.choice([0, 3, 4, 7]))
+        kw = {"lvl": rng.choice([0, 0, 3, 4, 7])}
+        if rng.random() < 0.5:
+            kw["ov"] = 1                       # this sink has its own override pattern
+        s.sink(f"S{i}", **kw)
+    s.logger("L0", rng.choice([["S0", "S1"], ["S1", "S0"]]), lvl=rng.choice([0, 3, 4, 7]))
     s.logger("L1", ["S1"], lvl=rng.choice([0, 4]))
     for t in range(rng.randint(1, 2)):
         s.start(f"t{t}")
